@@ -62,8 +62,10 @@ def _r1(run, beam, att):
     else:
         f = facts(guards_of(fn, deleg[0]) or [])
         ok = (z, '>=', '0') in f and (z, '<=', 'self._length') in f
-        zero = any(isinstance(n, ast.If) and any(isinstance(s, ast.Return) and norm(s.value) in ('0', '0.0') for s in n.body)
-                   and z + ' < 0' in norm(n.test) and z + ' > self._length' in norm(n.test) for n in fn.body)
+        # the early exits that establish the range return zero (one merged guard or one per bound)
+        exits = [n for n in fn.body if isinstance(n, ast.If) and any(isinstance(s, ast.Return) for s in n.body)
+                 and (z + ' < 0' in norm(n.test) or z + ' > self._length' in norm(n.test) or '0 > ' + z in norm(n.test) or 'self._length < ' + z in norm(n.test))]
+        zero = bool(exits) and all(isinstance(s, ast.Return) and norm(s.value) in ('0', '0.0') for n in exits for s in n.body if isinstance(s, ast.Return))
         if ok and zero and [norm(a) for a in deleg[0].args] == [x, y, z]:
             run.ok('C04-R1', 'Beam.density range guard', 'z < 0 or z > length -> 0 dominates attenuator.density(x, y, z)')
         else:
@@ -190,6 +192,12 @@ def _r2(run, prog, beam, att):
     run.describe('C04-R2', 'one envelope sigma^2(z) = sigma0^2 + z^2 tan^2(div) in density, direction and geometry; direction components; Gaussian profile')
     # --- attenuator density
     fn = _m(att, 'density')
+    try:
+        # helpers (private methods, module-level inline functions) are read where they are called
+        from ..inline import flatten, class_lookup, module_lookup
+        fn = flatten(flatten(fn, class_lookup(prog, att)), module_lookup(att.mod, prog=prog))
+    except Exception:
+        pass
     x, y, z = [a.arg for a in fn.args.args[1:4]]
     e, rec = body_env(fn, follow_if=False)
     K = att.mod.name + '|SingleRayAttenuator|density|'
@@ -198,8 +206,11 @@ def _r2(run, prog, beam, att):
         run.subject('C04-R2')
         got = e.env.get('sigma_' + ax)
         want = expr('%s ** 2 + (%s * %s) ** 2' % (S0, z, t))
+        import re as _re
         if got is not None and e.reduce_sqrt(got * got).eq(want):
             run.ok('C04-R2', 'density sigma_%s^2' % ax, want.key())
+        elif got is not None and any(_re.match(r'^_?[a-z_]\w*\(', l) and not l.startswith(('sqrt(', 'self.')) for l in got.leaves()):
+            run.undecided('C04-R2', 'density sigma_%s^2' % ax, 'computed by a helper that was not resolved: %s' % got.key()[:50])
         else:
             run.fail('C04-R2', K + 'envelope:' + ax, att.mod.relpath, fn.lineno,
                      'SingleRayAttenuator.density uses sigma_%s^2 = %s; the envelope is %s' % (ax, e.reduce_sqrt(got * got) if got is not None else None, want))
